@@ -74,6 +74,16 @@ Theorem C14_replay_never_auths :
 Proof. exact replay_never_auths. Qed.
 Print Assumptions C14_replay_never_auths.
 
+(* the message types the two server-side auth handler tables dispatch (Msg5/Msg50/Msg61 and, during a
+   gssapi-with-mic exchange, Msg66), the AUTH_* result values and the SUCCESS message are the ones in the
+   source today (regenerated each run by gen/c14.py) *)
+Theorem C14_generated_tables :
+  gen_auth_server_types = [5; 50; 61] /\ gen_auth_gss_types = [5; 50; 61; 66] /\
+  gen_auth_results = map res_code [RSuccess; RPartial; RFailed] /\
+  wire OSuccess = Ok [52].
+Proof. exact generated_tables. Qed.
+Print Assumptions C14_generated_tables.
+
 (* non-vacuity: a signed publickey request with an approving callback and a verifying signature
    does authenticate (toy signature scheme), and the gssapi paths do so only when approved *)
 Example C14_example_success :
